@@ -201,6 +201,18 @@ func genC07(t *rapid.T) c07Case {
 		if len(b) > 15 {
 			cut = rapid.IntRange(0, len(b)-15).Draw(t, "cut")
 		}
+		if rapid.IntRange(0, 2).Draw(t, "headerVariation") == 2 {
+			// an otherwise well-formed frame whose header bytes are arbitrary (W-bit on even functions, PType, SType, ...)
+			b = append([]byte(nil), b...)
+			for _, i := range []int{6, 7} {
+				b[i] = rapid.Byte().Draw(t, "hdrByte")
+			}
+			if rapid.IntRange(0, 3).Draw(t, "touchTypes") == 3 {
+				b[8] = byte(rapid.SampledFrom([]int{0, 0, 1, 255}).Draw(t, "ptype"))
+				b[9] = byte(rapid.SampledFrom([]int{0, 0, 1, 5, 8, 9, 255}).Draw(t, "stype"))
+			}
+			return c07Case{Gen: "valid-item-any-header", Bytes: b}
+		}
 		return c07Case{Gen: "truncated-item", Bytes: b, Truncate: cut, Patch: rapid.IntRange(0, 3).Draw(t, "patch") > 0}
 	case 8:
 		// nested chains up to the depth cap
